@@ -470,6 +470,7 @@ func (c *fsClient) runProtocol(runs *[]fsRun) {
 		if r.Vals[0].isNilConst() {
 			c.entry = "Addition protocol: NewAddition fails"
 			c.exitChecks(x, r.St, c.entry, newAdd, r.Vals, true, nil)
+			c.entry = "Addition protocol"
 			paths++
 			continue
 		}
@@ -499,6 +500,7 @@ func (c *fsClient) runProtocol(runs *[]fsRun) {
 				}
 				c.entry = "Addition protocol: " + label
 				c.exitChecks(x, r.St, c.entry, closeF, r.Vals, true, nil)
+				c.entry = "Addition protocol"
 				paths++
 			}
 		}
